@@ -480,10 +480,11 @@ Proof. intros HOK Hwf [HS HC].
   destruct (create F (next_tree s) t (bump_tree s)) as [[s' l] ids]. exact (cp_inv _ _ _ _ _ HP). Qed.
 
 Lemma step_inv F I s o : facts_ok F I = true -> wf_op o = true -> Inv F s -> Inv F (fst (step F s o)).
-Proof. intros HOK Hwf HI. destruct o as [b p oa|t|k|id|id sh]; cbn [step].
+Proof. intros HOK Hwf HI. destruct o as [b p oa|t|k|id| |id sh]; cbn [step].
   - now apply (set_backend_inv F I).
   - pose proof (create_inv F I s t HOK Hwf HI) as H. destruct (create F (next_tree s) t (bump_tree s)) as [[s' l] ids]. exact H.
   - now apply delete_inv.
+  - exact HI.
   - exact HI.
   - now apply (call_interp_inv F I). Qed.
 
@@ -495,6 +496,19 @@ Proof. constructor; [constructor|]; simpl; try (intros [|?]; simpl; intros; disc
 Lemma run_from_inv F I : facts_ok F I = true -> forall h s, wf_hist h = true -> Inv F s -> Inv F (run_from F s h).
 Proof. intros HOK. induction h as [|o r IH]; intros s Hwf HI; simpl; auto. simpl in Hwf. apply andb_true_iff in Hwf.
   destruct Hwf as [H1 H2]. apply IH; auto. now apply (step_inv F I). Qed.
+
+(* ---------- the boolean the harness prints really is equality of observations ---------- *)
+Lemma obsl_eqb_eq l l' : obsl_eqb l l' = true <-> l = l'.
+Proof. revert l'. induction l as [|[a x] t IH]; intros [|[b y] t']; simpl; split; intro H; try discriminate; auto.
+  - apply andb_true_iff in H. destruct H as [H H3]. apply andb_true_iff in H. destruct H as [H1 H2].
+    apply String.eqb_eq in H1. apply IH in H3. subst. f_equal. f_equal.
+    destruct x, y; simpl in H2; try discriminate; auto. apply aval_eqb_eq in H2. now subst.
+  - inversion H; subst. rewrite String.eqb_refl. simpl. apply andb_true_iff. split; [|now apply IH].
+    destruct y; simpl; auto. now apply aval_eqb_eq. Qed.
+Lemma obs_eqb_eq a b : obs_eqb a b = true <-> a = b.
+Proof. destruct a, b; simpl; split; intro H; try discriminate; auto.
+  - apply obsl_eqb_eq in H. now subst.
+  - inversion H. now apply obsl_eqb_eq. Qed.
 
 (* ---------- the theorems ---------- *)
 (* for EVERY finite history: every live object's cached attributes carry the current tensorlib (and the shape the
@@ -517,6 +531,13 @@ Theorem eval_as_fresh F I : facts_ok F I = true -> forall h, wf_hist h = true ->
   forall id o, nth_error (heap (run F h)) id = Some o -> o_live o = true ->
   eval (run F h) id = fresh_obs (o_cls o) (cur_tl (run F h)) (o_active o) (o_shape o).
 Proof. intros HOK h Hwf id o Ho Hl. apply (current_eval_fresh F I); auto. exact (run_from_inv F I HOK h init_state Hwf (init_inv F)). Qed.
+
+(* the single boolean an `EvalAll` step reports is true in every reachable state *)
+Theorem eval_all_fresh F I : facts_ok F I = true -> forall h, wf_hist h = true ->
+  snd (step F (run F h) EvalAll) = [EvAllObs true].
+Proof. intros HOK h Hwf. cbn [step snd]. f_equal. f_equal. apply forallb_forall. intros id _.
+  destruct (nth_error (heap (run F h)) id) as [o|] eqn:Eo; auto. destruct (o_live o) eqn:El; auto. simpl.
+  apply obs_eqb_eq. now apply (eval_as_fresh F I). Qed.
 
 (* ... in particular any two live objects of the same class and data evaluate identically, whenever they were built *)
 Corollary eval_same_as_later_built F I : facts_ok F I = true -> forall h, wf_hist h = true ->
@@ -599,7 +620,7 @@ Proof. unfold pre_ids. rewrite in_flat_map. split.
 
 Lemma step_dead F s o id : id < length (heap s) -> is_live s id = false ->
   ~ In (EvPre id) (snd (step F s o)) /\ id < length (heap (fst (step F s o))) /\ is_live (fst (step F s o)) id = false.
-Proof. intros Hlt Hd. destruct o as [b p oa|t|k|j|j sh]; cbn [step].
+Proof. intros Hlt Hd. destruct o as [b p oa|t|k|j| |j sh]; cbn [step].
   - unfold set_backend. destruct (new_optimizer s oa) as [nopt nxt].
     set (s1 := {| cur_tl := (b, p); cur_opt := nopt; next_opt := nxt; next_tree := next_tree s; heap := heap s; registry := registry s |}).
     assert (Hd1 : is_live s1 id = false) by exact Hd.
@@ -623,6 +644,7 @@ Proof. intros Hlt Hd. destruct o as [b p oa|t|k|j|j sh]; cbn [step].
     unfold is_live in *. cbn [heap delete]. rewrite nth_error_map. destruct (nth_error (heap s) id) as [x|]; simpl; auto.
     unfold kill. destruct (Nat.eqb (o_tree x) k); simpl; auto.
   - cbn [fst snd]. split; [|auto]. destruct (nth_error (heap s) j); [intros [H|[]]; discriminate|intros []].
+  - cbn [fst snd]. split; [|auto]. intros [H|[]]; discriminate.
   - cbn [fst snd]. assert (Hci : length (heap (call_interp s j sh)) = length (heap s) /\ is_live (call_interp s j sh) id = is_live s id).
     { unfold call_interp. destruct (nth_error (heap s) j) as [x|] eqn:Ex; auto. destruct (negb (o_live x) || guarded_off x || Nat.eqb sh (o_shape x)); auto.
       cbn [heap upd_heap]. rewrite length_upd_nth. split; auto. unfold is_live. cbn [heap upd_heap]. rewrite nth_error_upd_nth.
@@ -686,7 +708,7 @@ Proof. assert (Hoc : opt_changed s o = true <-> fst (new_optimizer s o) <> cur_o
   - destruct Hin as [Hin|[Hin|[]]]; discriminate. Qed.
 
 Lemma step_opt_fresh F s o : snd (cur_opt s) < next_opt s -> snd (cur_opt (fst (step F s o))) < next_opt (fst (step F s o)).
-Proof. intro H. destruct o as [b p oa|t|k|j|j sh]; cbn [step].
+Proof. intro H. destruct o as [b p oa|t|k|j| |j sh]; cbn [step].
   - unfold set_backend. destruct oa as [n|]; cbn [new_optimizer].
     + destruct (tl_changed s b p); [unfold call_round|]; cbn [fst cur_opt next_opt with_registry];
         [match goal with |- context [round_state ?a ?b] => destruct (round_frame a b) as [_ [_ [_ [R4 [R5 _]]]]]; rewrite R4, R5 end|]; simpl; lia.
@@ -694,6 +716,7 @@ Proof. intro H. destruct o as [b p oa|t|k|j|j sh]; cbn [step].
         [match goal with |- context [round_state ?a ?b] => destruct (round_frame a b) as [_ [_ [_ [R4 [R5 _]]]]]; rewrite R4, R5 end|]; simpl; auto.
   - pose proof (create_lm F (next_tree s) t (bump_tree s)) as HC. destruct (create F (next_tree s) t (bump_tree s)) as [[s' l] ids].
     destruct HC as [[_ [_ [L3 [L4 _]]]] _]. cbn [fst]. rewrite L3, L4. exact H.
+  - exact H.
   - exact H.
   - exact H.
   - cbn [fst]. unfold call_interp. destruct (nth_error (heap s) j) as [x|]; auto. destruct (negb (o_live x) || guarded_off x || Nat.eqb sh (o_shape x)); auto. Qed.
@@ -713,19 +736,6 @@ Proof. rewrite optimizer_event_iff_new_object. cbn [new_optimizer fst]. tauto. Q
 Theorem optimizer_event_iff_name_changed_refuted :
   exists s b p n, n = fst (cur_opt s) /\ In (EvTrigger "optimizer_changed") (snd (set_backend s b p (OByName n))).
 Proof. exists init_state, Numpy, B64, Scipy. split; [reflexivity|]. simpl. right. left. reflexivity. Qed.
-
-(* ---------- the boolean the harness prints really is equality of observations ---------- *)
-Lemma obsl_eqb_eq l l' : obsl_eqb l l' = true <-> l = l'.
-Proof. revert l'. induction l as [|[a x] t IH]; intros [|[b y] t']; simpl; split; intro H; try discriminate; auto.
-  - apply andb_true_iff in H. destruct H as [H H3]. apply andb_true_iff in H. destruct H as [H1 H2].
-    apply String.eqb_eq in H1. apply IH in H3. subst. f_equal. f_equal.
-    destruct x, y; simpl in H2; try discriminate; auto. apply aval_eqb_eq in H2. now subst.
-  - inversion H; subst. rewrite String.eqb_refl. simpl. apply andb_true_iff. split; [|now apply IH].
-    destruct y; simpl; auto. now apply aval_eqb_eq. Qed.
-Lemma obs_eqb_eq a b : obs_eqb a b = true <-> a = b.
-Proof. destruct a, b; simpl; split; intro H; try discriminate; auto.
-  - apply obsl_eqb_eq in H. now subst.
-  - inversion H. now apply obsl_eqb_eq. Qed.
 
 (* ---------- non-vacuity and sensitivity, on a small table of the same shape as the extracted one ---------- *)
 Definition demo_tv : cfacts :=
